@@ -42,7 +42,7 @@ def run(ctx):
     cf, cn = c11.execute(ctx, ("C07",))
     fails += cf
     named["cloud-stage-second-batch-for-pending-source"] = cn.get("second-batch-for-pending-source", 0)
-    if named.get("gauge-tie", 0) == 0:
+    if named.get("gauge-tie", 0) == 0 and not fails:
         raise vlib.MachineryError("vacuity: no family with a gauge timestamp tie")
     ctx.cov["named_situations"] = named
     ctx.cov["exhaustive"] = True
